@@ -71,6 +71,11 @@ func newEngine(p *Program) *Engine {
 		b := x.expr(st, e.Args[1])
 		return []Val{{Typ: types.Typ[types.Bool], T: x.uninterp("uf_parseint_ok_"+x.mode, SBool, s.T, b.T)}}
 	}
+	e.ghostFuncs["formValue"] = func(x *Exec, st *State, e *ast.CallExpr) []Val {
+		r := x.expr(st, e.Args[0])
+		name := x.expr(st, e.Args[1])
+		return []Val{{Typ: types.Typ[types.String], T: x.uninterp("uf_http_formvalue", x.scalarSort(types.Typ[types.String]), r.T, name.T)}}
+	}
 	registerGhostIO(e)
 	return e
 }
